@@ -124,21 +124,34 @@ def _make_sbox():
 
 
 _SBOX = _make_sbox()
+_MUL2 = [_gmul(x, 2) for x in range(256)]      # tables of the same field arithmetic (speed only)
+_MUL3 = [_gmul(x, 3) for x in range(256)]
+_RK_CACHE = {}
+
+
+def _round_keys(key):
+    rk = _RK_CACHE.get(key)
+    if rk is None:
+        w = [list(key[4 * i:4 * i + 4]) for i in range(4)]
+        rcon = 1
+        for i in range(4, 44):
+            t = list(w[i - 1])
+            if i % 4 == 0:
+                t = t[1:] + t[:1]
+                t = [_SBOX[x] for x in t]
+                t[0] ^= rcon
+                rcon = _xtime(rcon)
+            w.append([a ^ b for a, b in zip(w[i - 4], t)])
+        rk = [sum((w[4 * r + c] for c in range(4)), []) for r in range(11)]
+        if len(_RK_CACHE) > 64:
+            _RK_CACHE.clear()
+        _RK_CACHE[key] = rk
+    return rk
 
 
 def aes128_encrypt_block(key, block):
     assert len(key) == 16 and len(block) == 16
-    w = [list(key[4 * i:4 * i + 4]) for i in range(4)]
-    rcon = 1
-    for i in range(4, 44):
-        t = list(w[i - 1])
-        if i % 4 == 0:
-            t = t[1:] + t[:1]
-            t = [_SBOX[x] for x in t]
-            t[0] ^= rcon
-            rcon = _xtime(rcon)
-        w.append([a ^ b for a, b in zip(w[i - 4], t)])
-    rk = [sum((w[4 * r + c] for c in range(4)), []) for r in range(11)]
+    rk = _round_keys(bytes(key))
     s = [b ^ k for b, k in zip(block, rk[0])]
     for r in range(1, 11):
         s = [_SBOX[x] for x in s]
@@ -147,10 +160,10 @@ def aes128_encrypt_block(key, block):
             t = []
             for c in range(4):
                 a = s[4 * c:4 * c + 4]
-                t += [_gmul(a[0], 2) ^ _gmul(a[1], 3) ^ a[2] ^ a[3],
-                      a[0] ^ _gmul(a[1], 2) ^ _gmul(a[2], 3) ^ a[3],
-                      a[0] ^ a[1] ^ _gmul(a[2], 2) ^ _gmul(a[3], 3),
-                      _gmul(a[0], 3) ^ a[1] ^ a[2] ^ _gmul(a[3], 2)]
+                t += [_MUL2[a[0]] ^ _MUL3[a[1]] ^ a[2] ^ a[3],
+                      a[0] ^ _MUL2[a[1]] ^ _MUL3[a[2]] ^ a[3],
+                      a[0] ^ a[1] ^ _MUL2[a[2]] ^ _MUL3[a[3]],
+                      _MUL3[a[0]] ^ a[1] ^ a[2] ^ _MUL2[a[3]]]
             s = t
         s = [b ^ k for b, k in zip(s, rk[r])]
     return bytes(s)
